@@ -97,6 +97,11 @@ func NewContext() *Context {
 // NewContextWith returns a fully formed context using the data
 // provided.
 func NewContextWith(data map[string]interface{}) *Context {
+	if data == nil {
+		// no data of the caller's: the context still needs a map of its own to write to
+		data = map[string]interface{}{}
+	}
+
 	c := &Context{
 		Context: context.Background(),
 		data:    data,
@@ -119,6 +124,10 @@ func NewContextWith(data map[string]interface{}) *Context {
 // provided and setting the outer context with the passed
 // seccond argument.
 func NewContextWithOuter(data map[string]interface{}, out *Context) *Context {
+	if data == nil {
+		data = map[string]interface{}{}
+	}
+
 	c := &Context{
 		Context: context.Background(),
 		data:    data,
